@@ -256,7 +256,7 @@ class _Builder(object):
             if k == 0 and n >= 2 and odd and self.draw(st.integers(0, 2)) == 0:
                 arms.append(Arm(d, self.draw(st.sampled_from(odd)), an, expr))     # size = 4 (mod 8), alignment <= 4
             elif k == 1 and arms[0].type in odd:
-                arms.append(Arm(d, self.draw(st.sampled_from(['u64', 'i64', 'r64'])), an, expr))
+                arms.append(Arm(d, self.draw(st.sampled_from(['u64', 'i64', 'r64'] if self.o.allow_float else ['u64', 'i64'])), an, expr))
             else:
                 arms.append(Arm(d, self.pick_type(FIXED), an, expr))
         self.decls.append(Union(name, arms))
